@@ -11,6 +11,7 @@ LEVEL = "proof"
 COQ_FILES = ["Tie/C07_defs.v", "Tie/C07_tie.v", "Props/C07_props.v"]
 PROPS_FILES = ["C07_props.v"]
 TRUSTED_BASE = [
+    "vlib/symex.py (symbolic execution of the translated Python subset on the ast: the translator reads value / outcome trees, so local names, intermediates, helpers and the form of branches do not matter; its assumptions - pure expressions, opaque calls, no aliasing writes, try handlers not modelled - are listed in DESIGN.md 12.7; fail-closed)",
     "py2gallina unit 'budget' (rational expressions: RandomMaskFunc.prob, EquispacedMaskFunc.adjusted_accel, Gaussian1D/2D nonzero_count; the +1 of the rejection kernels comes from the .pyx loop condition)",
     "np.round / round are modelled as any rounding r with |r(x) - x| <= 1/2 (theorems) and as round-half-even over Q (correspondence, ties excluded)",
     "uniformity / independence of numpy draws (the 'in expectation' statement for random masks is the identity E[count] = L + (N - L) * prob = N / R; the statistics over seeds are support, not proof)",
